@@ -4,10 +4,13 @@ use std::io::{BufRead, Write};
 use std::panic::{catch_unwind, AssertUnwindSafe};
 
 mod autdump;
+mod e_automata;
 mod e_charset;
 mod e_looprange;
+mod e_partition;
 mod e_regex;
 mod e_strconv;
+mod e_strsearch;
 mod util;
 
 fn main() {
@@ -27,8 +30,11 @@ fn main() {
         let r = catch_unwind(AssertUnwindSafe(|| match engine {
             "charset" => e_charset::run(&toks),
             "regex" => e_regex::run(&toks),
+            "partition" => e_partition::run(&toks),
+            "automata" => e_automata::run(&toks),
             "looprange" => e_looprange::run(&toks),
             "strconv" => e_strconv::run(&toks),
+            "strsearch" => e_strsearch::run(&toks),
             _ => panic!("unknown engine"),
         }));
         let s = match r {
